@@ -80,6 +80,7 @@ func runC04(c *Config, r *Report) {
 	c04R13(ic, r)
 	c07R14(ic, r, "R04.14")
 	c04R15(ic, r)
+	c04R16(ic, r)
 	{
 		sub := newReport("C01")
 		c01R20(ic, sub)
@@ -856,4 +857,57 @@ func c04R15(ic *IC, r *Report) {
 	}
 	r.Check(handles(branch), "R04.15", "callBin/assignX/map-entry-set-in-its-map", ic.pos(branch.Pos()), "a map-entry destination goes through SetMapIndex",
 		"the assign-X branch of callBin stores the results of a compiled call with Set on each destination's value: for a map entry that is the temporary holding the looked-up element, so m[\"x\"], err = strconv.Atoi(\"42\") leaves m unchanged")
+}
+
+func init() {
+	ruleText["R04.16"] = "in the multiple-assignment closures of assign, the key of a map entry on the left-hand side is not evaluated while the destinations are being assigned: no SetMapIndex takes the direct result of a value generator as its key inside the loop over the destinations (the operands of index expressions are evaluated in the first phase, with the right-hand sides)"
+}
+
+// c04R16: found D85 (k, m[k] = "b", 1 set m["b"]).
+func c04R16(ic *IC, r *Report) {
+	info := ic.Info
+	fi := ic.fn(r, "assign")
+	if fi == nil {
+		return
+	}
+	isValueFn := func(t types.Type) bool {
+		if t == nil {
+			return false
+		}
+		sg, ok := t.Underlying().(*types.Signature)
+		return ok && sg.Params().Len() == 1 && sg.Results().Len() == 1 && isNamedPtr(sg.Params().At(0).Type(), "frame") && types.TypeString(sg.Results().At(0).Type(), nil) == "reflect.Value"
+	}
+	n := 0
+	for k, fl := range (&c02ctx{ic: ic}).closuresOf(fi) {
+		// a multiple-assignment closure: it builds temporaries (make of a []reflect.Value)
+		multi := false
+		ast.Inspect(fl.Body, func(m ast.Node) bool {
+			if c, ok := m.(*ast.CallExpr); ok {
+				if id := identOf(c.Fun); id != nil && id.Name == "make" && len(c.Args) > 0 && types.ExprString(c.Args[0]) == "[]reflect.Value" {
+					multi = true
+				}
+			}
+			return true
+		})
+		if !multi {
+			continue
+		}
+		for _, c := range callsIn(info, fl.Body, false, "reflect.Value.SetMapIndex") {
+			if len(c.Args) != 2 {
+				continue
+			}
+			n++
+			late := false
+			if kc, ok := unparen(c.Args[0]).(*ast.CallExpr); ok {
+				if id := identOf(kc.Fun); id != nil && isValueFn(info.TypeOf(id)) {
+					late = true
+				}
+			}
+			r.Check(!late, "R04.16", fmt.Sprintf("assign/closure#%d/map-key-evaluated-in-the-first-phase", k+1), ic.pos(c.Pos()), "the key was evaluated before any destination is assigned",
+				"the multiple-assignment closure of assign evaluates the key of a map entry ("+types.ExprString(c.Args[0])+") when it assigns that entry, after the destinations to its left have been assigned: k, m[k] = \"b\", 1 sets m[\"b\"] where the Go specification evaluates the index operands first (m[\"a\"])")
+		}
+	}
+	if n == 0 {
+		r.Errorf("R04.16: no map-entry assignment found in the multiple-assignment closures of assign")
+	}
 }
